@@ -1025,7 +1025,18 @@ func addrKeyRec(a *ssa.FieldAddr, resolve func(ssa.Value) ssa.Value) (string, bo
 		}
 		return name + "@(" + k + ")", true
 	case *ssa.IndexAddr:
-		// field of a slice element: identified by the element address value
+		// field of a slice element: identified by the slice value and the
+		// index value (two IndexAddr instructions with the same operands
+		// denote the same address)
+		if _, isFA := resolve(inner.X).(*ssa.FieldAddr); !isFA {
+			var idx string
+			if c, ok := bconstInt(inner.Index); ok {
+				idx = fmt.Sprint(c)
+			} else {
+				idx = valID(resolve(inner.Index))
+			}
+			return name + "@E(" + valID(resolve(inner.X)) + "[" + idx + "])", true
+		}
 		return name + "@" + valID(inner), true
 	}
 	return name + "@" + valID(base), true
